@@ -377,6 +377,19 @@ inline std::vector<LayoutFrame> referenceLayout(const std::vector<LayoutPacket>&
     for (size_t i = 0; i < batch.size(); ++i)
     {
         const LayoutPacket& p = batch[i];
+        if (p.length == 0)
+        {
+            // a packet without payload bytes puts no message on the wire, but it is placed like any other packet: where a
+            // 16-byte message would not be appended (other type, frame holds a segment, too little room) a new frame is opened
+            bool append = !out.empty() && !holdsSegment && out.back().msgType == p.msgType && left >= wire::kMsgHeader;
+            if (!append)
+            {
+                out.push_back({p.msgType, {}});
+                left = cap;
+                holdsSegment = false;
+            }
+            continue;
+        }
         if (wire::kMsgHeader + p.length <= cap)
         {
             bool append = !out.empty() && !holdsSegment && out.back().msgType == p.msgType && left >= wire::kMsgHeader + p.length;
